@@ -11,7 +11,7 @@ def run(ctx):
     if err:
         ctx.violation('translator of yy_get_next_buffer() gave up: ' + err, {'error': err}, no_input=True)
     q1, q2, q3 = {'quick': (64, 48, 32), 'thorough': (600, 400, 200)}[ctx.tier]
-    plan = [('eof', q1, 8), ('include', q3, 6), ('wrapbol', q3, 6)]
+    plan = [('eof', q1, 8), ('include', q3, 6), ('wrapbol', q3, 6), ('memmore', q3, 6), ('switchwrap', q3, 6)]
     return rtprop.run(ctx, THEOREMS + TRANSLATED, plan, 'exploration',
                       'end of input: up to three sources chained by yywrap, <<EOF>> actions per start condition, yyinput at end of input, repeated yylex calls; nested buffers ended by <<EOF>> actions or by a yywrap() that pops the buffer and returns 0; about yy_get_next_buffer() as translated from a scanner flex generates in this run it is proved that end of file is reported only when the reader, asked for at least one byte, delivered none (eof_only_when_reader_dry), that pending text is matched first (EOB_ACT_LAST_MATCH exactly when more than the yymore() prefix is pending, the buffer then marked EOF_PENDING and the reader not asked again: nextBuf_read, nextBuf_eof_pending) and that a buffer without refill (yy_scan_*) is left untouched (nextBuf_nofill)' + '. Kernel-checked theorems about the abstract scanner (listed under obligations) + differential '
                       'correspondence of the real generated scanner (ASan/UBSan build) with that model on generated cases.')
